@@ -1,4 +1,6 @@
 """C09 — package envelopes (model: coq/model/Envelope.v)."""
+import copy
+
 import fw
 from fw import gN, glist, gopt, gpair, gapp, gbool, gnat
 
@@ -17,27 +19,57 @@ def gout(o):
 NAMES = ["main", "f", "café", "λ_fn", "straße", "emoji_\U0001F600", "中文", "a b", ""]
 
 
-def build_package(spec):
-    """spec: {"modules": [[func names]], "exts": [[name, [type names], [op names], descr]]}"""
-    from hugr import tys, ext
+PROG_KW = {"size": 3, "max_depth": 2}      # small builder programs (harness/progs.py) as modules / lowerings
+
+
+def prog_hugr(seed):
+    import random
+    import progs
+    return progs.run(progs.gen_program(random.Random(seed), "module", **PROG_KW)).hugr
+
+
+def build_module(m):
+    """m: [func names] (a module with those functions) | {"prog": seed} (a random builder program)"""
+    from hugr import tys
     from hugr.build.function import Module
+    if isinstance(m, dict):
+        return prog_hugr(m["prog"])
+    mod = Module()
+    for i, name in enumerate(m):
+        f = mod.define_function(name, [tys.Bool] * (i % 3))
+        f.set_outputs(*f.inputs())
+    return mod.hugr
+
+
+def build_ext(x):
+    """x: [name, [type names], [op names], descr] (round 1: one shape of type / operation definition), or a
+    dict (round 3, a RICH extension): name, version [major, minor, patch, pre-release, build], reqs and a list
+    of commands in the form of harness/props/c10.py (type definitions with explicit / from-params bounds and
+    any parameters, operation definitions with signature only / binary only / both, descriptions, misc,
+    values), an operation command optionally with "lower": [[extension names, module]] (lowering functions)."""
+    from hugr import tys, ext
+    if isinstance(x, dict):
+        from props import c10
+        e = c10.C10._new_ext(x)
+        for c in x["cmds"]:
+            o = c10.C10._new_obj(c)
+            for names, m in c.get("lower", []) if c["c"] == "op" else []:
+                o.lower_funcs.append(ext.FixedHugr(list(names), build_module(m)))
+            c10.C10._add(e, c, o)
+        return e
+    name, tnames, onames, descr = x
+    e = ext.Extension(name, ext.Version(0, 1, len(tnames)))
+    for t in tnames:
+        e.add_type_def(ext.TypeDef(t, descr, [tys.TypeTypeParam(tys.TypeBound.Any)], ext.FromParamsBound([0])))
+    for o in onames:
+        e.add_op_def(ext.OpDef(o, ext.OpDefSig(tys.FunctionType([tys.Bool], [tys.Qubit])), descr, {"k": descr}))
+    return e
+
+
+def build_package(spec):
+    """spec: {"modules": [module (see build_module)], "exts": [extension (see build_ext)]}"""
     from hugr.package import Package
-    mods = []
-    for funcs in spec["modules"]:
-        m = Module()
-        for i, name in enumerate(funcs):
-            f = m.define_function(name, [tys.Bool] * (i % 3))
-            f.set_outputs(*f.inputs())
-        mods.append(m.hugr)
-    exts = []
-    for name, tnames, onames, descr in spec["exts"]:
-        e = ext.Extension(name, ext.Version(0, 1, len(tnames)))
-        for t in tnames:
-            e.add_type_def(ext.TypeDef(t, descr, [tys.TypeTypeParam(tys.TypeBound.Any)], ext.FromParamsBound([0])))
-        for o in onames:
-            e.add_op_def(ext.OpDef(o, ext.OpDefSig(tys.FunctionType([tys.Bool], [tys.Qubit])), descr, {"k": descr}))
-        exts.append(e)
-    return Package(mods, exts)
+    return Package([build_module(m) for m in spec["modules"]], [build_ext(x) for x in spec["exts"]])
 
 
 class ImplRaised(Exception):
@@ -77,7 +109,7 @@ def apply_mut(pkg, mut, k):
     mods, exts = pkg.modules, pkg.extensions
     if kind in ("meta", "addnode") and not mods:
         kind = "appmod"
-    if kind == "exttype" and not exts:
+    if kind in ("exttype", "extop") and not exts:
         kind = "appext"
     if kind == "meta":                 # metadata of a module root (non-ASCII value)
         h = mods[idx % len(mods)]
@@ -111,11 +143,16 @@ def apply_mut(pkg, mut, k):
     elif kind == "exttype":            # an extension held by the package gets another type definition
         e = exts[idx % len(exts)]
         e.add_type_def(ext.TypeDef("Added%d" % k, "straße", [], ext.ExplicitBound(tys.TypeBound.Copyable)))
+    elif kind == "extop":              # ... another operation definition: static signature AND binary flag
+        e = exts[idx % len(exts)]
+        e.add_op_def(ext.OpDef("AddedOp%d" % k, ext.OpDefSig(tys.FunctionType.endo([tys.Bool]), binary=True),
+                               "größe", {"k%d" % k: [1.5, None, "ü"]}))
     else:
         raise AssertionError(mut)
 
 
-MUT_KINDS = ["meta", "addnode", "appmod", "insmod", "popmod", "revmods", "appext", "insext", "popext", "exttype"]
+MUT_KINDS = ["meta", "addnode", "appmod", "insmod", "popmod", "revmods", "appext", "insext", "popext", "exttype",
+             "extop"]
 
 
 def run_history(spec, steps, encode=True):
@@ -182,26 +219,87 @@ def rand_history(rng, levels):
     return norm_steps(steps)
 
 
+def shrink_ext(x):
+    """smaller variants of one extension description"""
+    if not isinstance(x, dict):
+        n, t, o, d = x
+        for e2 in ([n, [], o, d] if t else None, [n, t, [], d] if o else None, [n, t, o, "f"] if d != "f" else None):
+            if e2:
+                yield e2
+        return
+    cmds = x["cmds"]
+    for j in range(len(cmds)):
+        yield dict(x, cmds=cmds[:j] + cmds[j + 1:])
+    if x["reqs"]:
+        yield dict(x, reqs=[])
+    if x["version"][3] is not None or x["version"][4] is not None:
+        yield dict(x, version=x["version"][:3] + [None, None])
+    for j, c in enumerate(cmds):
+        alts = []
+        if c.get("lower"):
+            alts.append(dict(c, lower=[]))
+            alts += [dict(c, lower=c["lower"][:i] + [[[], []]] + c["lower"][i + 1:])
+                     for i, l in enumerate(c["lower"]) if l != [[], []]]
+        if c.get("descr"):
+            alts.append(dict(c, descr=""))
+        if c.get("misc"):
+            alts.append(dict(c, misc={}))
+        if c.get("params"):
+            alts.append(dict(c, params=[], bound=["E", "A"]))
+        if c["c"] == "op" and c.get("sig") is not None:
+            sg = c["sig"]
+            if sg["params"] or sg["in"] or sg["out"] or sg["reqs"]:
+                alts.append(dict(c, sig={"params": [], "in": [], "out": [], "reqs": []}, func=True))
+            if c.get("binary"):
+                alts.append(dict(c, sig=None))
+                alts.append(dict(c, binary=False))
+        if c["c"] == "value" and c["val"] != ["true"]:
+            alts.append(dict(c, val=["true"]))
+        for c2 in alts:
+            yield dict(x, cmds=cmds[:j] + [c2] + cmds[j + 1:])
+
+
 def shrink_spec(sp):
     for i in range(len(sp["modules"])):
         yield {"modules": sp["modules"][:i] + sp["modules"][i + 1:], "exts": sp["exts"]}
-        for j in range(len(sp["modules"][i])):
-            m = sp["modules"][i]
+        m = sp["modules"][i]
+        if isinstance(m, dict):            # a builder program: only replaced by the bare module
+            yield {"modules": sp["modules"][:i] + [[]] + sp["modules"][i + 1:], "exts": sp["exts"]}
+            continue
+        for j in range(len(m)):
             yield {"modules": sp["modules"][:i] + [m[:j] + m[j + 1:]] + sp["modules"][i + 1:], "exts": sp["exts"]}
             if m[j] != "f":
                 yield {"modules": sp["modules"][:i] + [m[:j] + ["f"] + m[j + 1:]] + sp["modules"][i + 1:],
                        "exts": sp["exts"]}
     for i in range(len(sp["exts"])):
         yield {"modules": sp["modules"], "exts": sp["exts"][:i] + sp["exts"][i + 1:]}
-        n, t, o, d = sp["exts"][i]
-        for e2 in ([n, [], o, d] if t else None, [n, t, [], d] if o else None, [n, t, o, "f"] if d != "f" else None):
-            if e2:
-                yield {"modules": sp["modules"], "exts": sp["exts"][:i] + [e2] + sp["exts"][i + 1:]}
+        for e2 in shrink_ext(sp["exts"][i]):
+            yield {"modules": sp["modules"], "exts": sp["exts"][:i] + [e2] + sp["exts"][i + 1:]}
+
+
+def canon_ext_doc(js):
+    """The document of an extension as compared by this check.  Runtime requirements are SETS in hugr-py
+    (Extension.runtime_reqs is a set; add_op_def / the decoder rebuild a signature's requirements through a
+    set), written as JSON arrays in the set's iteration order, which depends on the string hash seed and on
+    the insertion history: the two set-valued arrays (the extension's and each operation signature's
+    runtime_reqs) are compared as sorted arrays.  Everything else, including the order of object keys and of
+    all other arrays, exactly as written."""
+    import json
+    try:
+        d = json.loads(js)
+        d["runtime_reqs"] = sorted(d["runtime_reqs"])
+        for o in d["operations"].values():
+            if o.get("signature") is not None:
+                b = o["signature"]["body"]
+                b["runtime_reqs"] = sorted(b["runtime_reqs"])
+        return json.dumps(d, ensure_ascii=False)
+    except Exception:                      # not the expected shape: compared as written
+        return js
 
 
 def docs(pkg):
     return ([m._to_serial().model_dump_json() for m in pkg.modules],
-            [e._to_serial().model_dump_json() for e in pkg.extensions])
+            [canon_ext_doc(e._to_serial().model_dump_json()) for e in pkg.extensions])
 
 
 def rand_spec(rng):
@@ -209,6 +307,104 @@ def rand_spec(rng):
             "exts": [["ext%d.%s" % (i, rng.choice(["a", "bé"])), [rng.choice(["T", "Uü"]) for _ in range(rng.randint(0, 2))][:1],
                       [rng.choice(["op", "Ωp"]) for _ in range(rng.randint(0, 2))][:1], rng.choice(NAMES)]
                      for i in range(rng.randint(0, 2))]}
+
+
+def prog_ok(seed, max_nodes):
+    """harness/progs.py occasionally emits a program its interpreter cannot run; large ones are left to C02"""
+    try:
+        return len(prog_hugr(seed)) <= max_nodes
+    except Exception:
+        return False
+
+
+def rand_prog(rng, max_nodes):
+    for _ in range(20):
+        seed = rng.randrange(10 ** 6)
+        if prog_ok(seed, max_nodes):
+            return {"prog": seed}
+    return []
+
+
+OP_BOTH = {"c": "op", "name": "Both", "descr": "signature and binary", "misc": {}, "binary": True, "func": True,
+           "sig": {"params": [], "in": [["bool"]], "out": [["bool"]], "reqs": []}}
+
+
+def rand_rich_ext(rng):
+    """A rich extension: the contents generator of C10 (harness/props/c10.py: type definitions with explicit and
+    from-params bounds over any parameters, operation definitions with polymorphic signature only / binary only /
+    both, non-ASCII descriptions, misc JSON, values, requirement sets, pre-release and build versions), to
+    which lowering functions are added, plus (half of the time) one operation of each signature shape so that
+    every run has them."""
+    from props import c10
+    x = c10.rand_hist(rng)
+    x = {"name": x["name"], "version": x["version"], "reqs": x["reqs"], "cmds": x["cmds"][:6]}
+    if rng.random() < 0.5:
+        names = rng.sample(c10.DEF_NAMES, 3)
+        both = copy.deepcopy(OP_BOTH)
+        shapes = [dict(both, name=names[0], descr=c10.rand_descr(rng)),
+                  {"c": "op", "name": names[1], "descr": c10.rand_descr(rng), "misc": {}, "binary": True, "func": False,
+                   "sig": None},
+                  dict(copy.deepcopy(OP_BOTH), name=names[2], binary=False, func=rng.random() < 0.5)]
+        for c in shapes:
+            x["cmds"].insert(rng.randint(0, len(x["cmds"])), c)
+    for c in x["cmds"]:
+        if c["c"] == "op" and rng.random() < 0.3:
+            c["lower"] = [[rng.sample(c10.EXT_NAMES, rng.randint(0, 2)),
+                           rand_prog(rng, 8) if rng.random() < 0.5 else
+                           [rng.choice(NAMES) for _ in range(rng.randint(0, 2))]]
+                          for _ in range(rng.randint(1, 2))]
+    return x
+
+
+def rand_rich_spec(rng):
+    mods = []
+    for _ in range(rng.randint(0, 2)):
+        mods.append(rand_prog(rng, 12) if rng.random() < 0.5 else [rng.choice(NAMES) for _ in range(rng.randint(0, 2))])
+    exts = [rand_rich_ext(rng) for _ in range(rng.choice([1, 1, 2, 3]))]
+    if rng.random() < 0.3:                 # mixed with the round-1 shape
+        exts.insert(rng.randint(0, len(exts)), ["ext.bé", ["T"], ["Ωp"], rng.choice(NAMES)])
+    return {"modules": mods, "exts": exts}
+
+
+def is_rich(spec):
+    return any(isinstance(x, dict) for x in spec["exts"]) or any(isinstance(m, dict) for m in spec["modules"])
+
+
+def op_shapes(spec):
+    """the signature shapes of the operation definitions a spec's rich extensions END UP holding (a later
+    command of the same name replaces the earlier definition)"""
+    out = []
+    for x in spec["exts"]:
+        if isinstance(x, dict):
+            held = {}
+            for c in x["cmds"]:
+                if c["c"] == "op":
+                    held[c["name"]] = ("sig+binary" if c["binary"] else "sig-only") if c["sig"] is not None else "binary-only"
+                    if c.get("lower"):
+                        held[c["name"]] += "+lower"
+            out += list(held.values())
+    return out
+
+
+def drift(env, payload, z):
+    """DIAGNOSTICS only, never part of a verdict: does the payload text in the envelope equal the harness' own
+    reference serialisation (`_to_serial().model_dump_json()`), and does a compressed payload equal what
+    pyzstd.compress(reference, level) produces here?  zstd and the JSON codec are oracles of the property: any
+    zstd frame of any text that reads back as the same documents is a compressed payload (frames with a
+    content checksum, another library version, other separators or key order … are all the same to it)."""
+    import pyzstd
+    body = bytes(env[10:])
+    out = {}
+    try:
+        out["ref_text"] = (body if z is None else pyzstd.decompress(body)) == payload
+    except Exception:
+        out["ref_text"] = False
+    if z is not None:
+        try:
+            out["ref_frame"] = body == pyzstd.compress(payload, z)
+        except Exception:
+            out["ref_frame"] = False
+    return out
 
 
 def classify(f, pkg_docs):
@@ -246,8 +442,15 @@ class C09(fw.Prop):
             "Package.from_bytes (plain, compressed) and Package.from_str; histories on ONE package object / ONE "
             "config object (to_bytes/to_str/to_json, then metadata / node / module-list / extension-list / "
             "extension changes or a changed config, then encode again) whose last envelope is compared with a "
-            "fresh never-encoded object of the same contents.  non-trivial = compressed, non-ASCII, empty "
-            "package, malformed input, or a history")
+            "fresh never-encoded object of the same contents (header; payload judged by the oracles: decompresses iff "
+            "compression was asked and reads back as the same documents — never byte-compared with a reference "
+            "compressor / serialiser); packages with RICH extensions (contents generator "
+            "of C10: type definitions with explicit / from-params bounds over any parameters, operation "
+            "definitions with signature only / binary only / both, descriptions, misc JSON, values, requirement "
+            "sets, pre-release and build versions; plus lowering functions) and builder-program modules through "
+            "make / read (uncompressed and compressed) / readstr / damaged envelope / history; documents compared "
+            "with the two set-valued requirement arrays sorted.  non-trivial = compressed, non-ASCII, empty "
+            "package, malformed input, a history, or a rich package")
     trusted = ["zstd (pyzstd) and pydantic's JSON text codec are oracles: inverse laws are Section hypotheses of "
                "C09_envelope_roundtrip; their answers on each case (decompress succeeds, parsed documents equal "
                "the original's) are observed by the harness and fed to the model",
@@ -275,6 +478,30 @@ class C09(fw.Prop):
         # payloads zstd cannot shrink; Latin-1 / non-BMP text
         cs.append({"kind": "read", "spec": empty, "zstd": 0, "mut": ["none"]})
         cs.append({"kind": "read", "spec": {"modules": [["café"]], "exts": []}, "zstd": None, "mut": ["none"]})
+        # (round 3) rich extensions.  An operation definition with BOTH a static signature and binary=True keeps
+        # its flag through the decoder (seeded C09-f) ...
+        both = {"modules": [], "exts": [{"name": "x", "version": [0, 1, 0, None, None], "reqs": [],
+                                         "cmds": [copy.deepcopy(OP_BOTH)]}]}
+        cs.append({"kind": "read", "spec": both, "zstd": None, "mut": ["none"]})
+        cs.append({"kind": "readstr", "spec": both, "zstd": None})
+        # ... and one extension with one of everything else a decoder could lose: pre-release + build version,
+        # requirement set, explicit Copyable bound, from-params bound with repeated / unordered indices,
+        # binary-only op, polymorphic signature with requirements, misc, non-ASCII description, lowering
+        # functions (with extension names), a value
+        full = {"name": "ext_é", "version": [1, 2, 3, "rc.2", "exp.sha.5114f85"], "reqs": ["q", "a.b.c"], "cmds": [
+            {"c": "type", "name": "T", "descr": "dèscription ∀", "params": [], "bound": ["E", "C"]},
+            {"c": "type", "name": "U", "descr": "", "params": [["type", "C"], ["nat", 7], ["list", ["type", "A"]]],
+             "bound": ["F", [2, 0, 0]]},
+            {"c": "op", "name": "Bin", "descr": "日本語", "misc": {}, "sig": None, "binary": True, "func": False},
+            {"c": "op", "name": "Poly", "descr": "größe", "misc": {"k0": [1.5, None, {"é": "ü∀"}], "z1": 2 ** 70},
+             "binary": False, "func": False,
+             "sig": {"params": [["type", "A"], ["str"]], "in": [["var", 0, "A"], ["qubit"]],
+                     "out": [["tuple", [["bool"], ["int", 5]]]], "reqs": ["foo.bar", "Zed"]},
+             "lower": [[["ext_é", "a.b.c"], ["café"]], [[], []]]},
+            {"c": "value", "name": "v", "val": ["tuple", [["true"], ["int", 7, 5], ["string", "日本語"]]]}]}
+        cs.append({"kind": "read", "spec": {"modules": [["f"]], "exts": [full]}, "zstd": 0, "mut": ["none"]})
+        cs.append({"kind": "seq", "spec": {"modules": [], "exts": [full]},
+                   "steps": [["enc", "bytes", "new", None], ["mut", "extop", 0], ["enc", "str", "new", None]]})
         return cs
 
     def generate(self, rng, tier, ctx):
@@ -320,6 +547,23 @@ class C09(fw.Prop):
                      ["enc", how, mode, z]])})
         for _ in range(nh):
             cases.append({"kind": "seq", "spec": rng.choice(hspecs), "steps": rand_history(rng, levels)})
+        # (round 3) packages with RICH extensions (and builder-program modules), appended last so that the streams
+        # above are unchanged: encoded, decoded from bytes (uncompressed and one level) and from text, a damaged
+        # envelope, and (every fourth) the encoder alone / a history on the one object
+        nr = 30 if tier == "quick" else 240
+        for i in range(nr):
+            sp = rand_rich_spec(rng)
+            lvl = rng.choice(levels[1:])
+            cases.append({"kind": "read", "spec": sp, "zstd": None, "mut": ["none"]})
+            cases.append({"kind": "read", "spec": sp, "zstd": lvl, "mut": ["none"]})
+            cases.append({"kind": "read", "spec": sp, "zstd": lvl, "mut": rng.choice(
+                [["flipz"], ["byte", 8, rng.choice([1, 2, 62])], ["trunc", rng.randint(0, 12)]])})
+            if i % 2 == 0:
+                cases.append({"kind": "readstr", "spec": sp, "zstd": None})
+            if i % 4 == 1:
+                cases.append({"kind": "make", "spec": sp, "zstd": rng.choice([None, lvl])})
+            if i % 4 == 3:
+                cases.append({"kind": "seq", "spec": sp, "steps": rand_history(rng, levels)})
         return cases
 
     # -- observation ------------------------------------------------------------------------------------
@@ -330,8 +574,9 @@ class C09(fw.Prop):
             return {"raised": e.cls, "stage": e.stage}
 
     @staticmethod
-    def read_obs(env, d, decode):
-        """Oracle answers for the byte string `env` and the outcome class of decoding it."""
+    def oracle_obs(env, d):
+        """The oracles' answers for the byte string `env`: does pyzstd decompress what follows the header; does
+        the JSON codec read those bytes as they are (pp) / decompressed (pd) as a package with documents `d`."""
         import pyzstd
         import hugr._serialization.extension as ext_s
         body = env[10:]
@@ -348,8 +593,14 @@ class C09(fw.Prop):
                 return docs(p) == d
             except Exception:
                 return None
-        return {"input": list(env), "dec_ok": dec is not None, "pp": parse(body), "pd": parse(dec),
-                "obs": classify(decode, d)}
+        return {"dec_ok": dec is not None, "pp": parse(body), "pd": parse(dec)}
+
+    @classmethod
+    def read_obs(cls, env, d, decode):
+        """Oracle answers for the byte string `env` and the outcome class of decoding it."""
+        r = cls.oracle_obs(env, d)
+        r.update({"input": list(env), "obs": classify(decode, d)})
+        return r
 
     def observe_inner(self, case, ctx):
         import pyzstd
@@ -378,7 +629,6 @@ class C09(fw.Prop):
             d = impl("twin", lambda: docs(twin))
             payload = impl("twin", lambda: twin._to_serial().model_dump_json().encode("utf-8"))
             z = step_zstd(last)
-            comp = pyzstd.compress(payload, z) if z is not None else b""
             if last[1] == "str":
                 assert isinstance(out, str)
                 env = out.encode("utf-8")
@@ -386,16 +636,17 @@ class C09(fw.Prop):
             else:
                 env = bytes(out)
                 r = self.read_obs(env, d, lambda: Package.from_bytes(env))
-            r.update({"payload": list(payload), "compressed": list(comp), "envelope": list(env)})
+            r.update({"envelope": list(env), "drift": drift(env, payload, z)})
             return r
         pkg = impl("build", lambda: build_package(case["spec"]))
         d = docs(pkg)
         cfg = EnvelopeConfig(format=EnvelopeFormat.JSON, zstd=case.get("zstd"))
         if k == "make":
             payload = pkg._to_serial().model_dump_json().encode("utf-8")
-            comp = pyzstd.compress(payload, cfg.zstd) if cfg.zstd is not None else b""
             env = impl("to_bytes", lambda: pkg.to_bytes(cfg))
-            return {"payload": list(payload), "compressed": list(comp), "envelope": list(env)}
+            r = self.oracle_obs(env, d)
+            r.update({"envelope": list(env), "drift": drift(env, payload, cfg.zstd)})
+            return r
         if k == "str":
             cfg = EnvelopeConfig(format=EnvelopeFormat[case["fmt"]], zstd=case["zstd"])
             utf8 = True
@@ -458,7 +709,7 @@ class C09(fw.Prop):
             return gapp("CSweep", glist(gpair(gN(a), gN(b), gpair(gN(c), gbool(z))) for a, b, c, z in obs["accepted"]),
                         gN(obs["nve"]), gN(obs["nother"]))
         if k == "make":
-            return gapp("CMake", gz(case["zstd"]), gbytes(obs["payload"]), gbytes(obs["compressed"]), gbytes(obs["envelope"]))
+            return gapp("CMake", gz(case["zstd"]), gbytes(obs["envelope"]), gbool(obs["dec_ok"]), gob(obs["pp"]), gob(obs["pd"]))
         if k == "str":
             return gapp("CStr", case["fmt"], gz(case["zstd"]), gbool(obs["utf8"]), gout(obs["obs"]))
         if k == "trunc":
@@ -475,7 +726,7 @@ class C09(fw.Prop):
         if k == "seq":
             hist = glist("HMut" if st[0] == "mut" else gapp("HEnc", gbool(st[1] == "str"), gz(step_zstd(st)))
                          for st in case["steps"] if st[0] == "mut" or st[1] in ("bytes", "str"))
-            return gapp("CSeq", hist, gbytes(obs["payload"]), gbytes(obs["compressed"]), gbytes(obs["envelope"]),
+            return gapp("CSeq", hist, gbytes(obs["envelope"]),
                         gbool(obs["dec_ok"]), gob(obs["pp"]), gob(obs["pd"]), gout(obs["obs"]))
 
     def nontrivial(self, case, obs):
@@ -485,7 +736,7 @@ class C09(fw.Prop):
             return True
         s = case["spec"]
         txt = repr(s)
-        return (not s["modules"] and not s["exts"]) or any(ord(c) > 127 for c in txt) or "\\u" in txt or "\\x" in txt
+        return is_rich(s) or (not s["modules"] and not s["exts"]) or any(ord(c) > 127 for c in txt) or "\\u" in txt or "\\x" in txt
 
     def describe(self, case, obs):
         o = obs
@@ -523,6 +774,17 @@ class C09(fw.Prop):
             key = c["kind"] + (":" + c["mut"][0] if "mut" in c else "")
             if c["kind"] == "seq":
                 key = "seq:%d-steps:last=%s" % (len(c["steps"]), c["steps"][-1][1])
+            if "spec" in c and is_rich(c["spec"]):
+                key += "+rich"
+                if c["kind"] in ("read", "readstr") and c.get("mut", ["none"])[0] == "none":
+                    sh = d.setdefault("opdefs decoded from valid envelopes (rich)", {})
+                    for x in op_shapes(c["spec"]):
+                        sh[x] = sh.get(x, 0) + 1
+            for dk, dv in (o.get("drift", {}) if isinstance(o, dict) else {}).items():
+                df = d.setdefault("diagnostic only, no verdict: " +
+                                  {"ref_text": "payload text equals the reference serialisation",
+                                   "ref_frame": "zstd frame equals the reference compressor's bytes"}[dk], {})
+                df[str(dv)] = df.get(str(dv), 0) + 1
             d.setdefault(key, {})
             ob = o.get("obs", o.get("raised", "-")) if isinstance(o, dict) else "-"
             d[key][ob] = d[key].get(ob, 0) + 1
